@@ -1,4 +1,197 @@
 import EaselModel.Core.Proto
-/-! Line-protocol driver for the C18 model (stub: answers bad-op until the model lands). -/
-open EaselModel.Proto
-def main : IO Unit := runDriver () (fun s _ => (s, "bad-op"))
+import EaselModel.Shuffle.Model
+/-! Line-protocol driver for the C18 model (shufflers of esl_randomseq.c / esl_msashuffle.c / esl_vectorops.c). -/
+open EaselModel EaselModel.Proto EaselModel.Random EaselModel.Shuffle
+
+structure S where
+  r : Option Rng := none
+
+def hexA (a : Bytes) : String := hexOrDash a.toList
+
+def argBytes (ws : List String) (k : String) : Option Bytes := (argHex? ws k).map (·.toArray)
+
+def commaFields (s : String) : List String := if s == "" then [] else s.splitOn ","
+
+def hexRows (ws : List String) (k : String) : Option (Array Bytes) :=
+  match arg? ws k with
+  | none => none
+  | some v => (commaFields v).foldl (fun acc f => acc.bind fun a => (bytesOfHex f).map fun b => a.push b.toArray) (some #[])
+
+def parseHexNat (w : String) : Option Nat :=
+  w.toList.foldl (fun acc c => acc.bind fun a => (hexVal c).map fun d => a * 16 + d) (some 0)
+
+def bitsList64 (s : String) : List Float :=
+  (commaFields s).filterMap fun w => (parseHexNat w).map fun n => Float.ofBits (UInt64.ofNat n)
+
+def bitsList32 (s : String) : List Float :=
+  (commaFields s).filterMap fun w => (parseHexNat w).map fun n => (Float32.ofBits (UInt32.ofNat n)).toFloat
+
+def withSent (a : Bytes) : Bytes := #[255] ++ a ++ #[255]
+
+def showSeq : SeqResult → String
+  | .ok out => "ok " ++ hexA out
+  | .einval => "einval"
+  | .einconceivable => "einconceivable"
+  | .nohalt => "nohalt"
+  | .fatal => "fatal"
+
+def showRows (rows : Array Bytes) : String :=
+  if rows.isEmpty then "ok -" else "ok " ++ ",".intercalate (rows.toList.map hexA)
+
+def gapText (c : UInt8) : Bool := c == 45 || c == 95 || c == 46   -- '-', '_', '.' : inmap == K in every standard alphabet
+
+/-- `dst` of an out-of-place call is filled with 0x77 by the harness -/
+def fill (n : Nat) : Bytes := Array.replicate n 0x77
+
+def step (s : S) (line : String) : S × String :=
+  let ws := words line
+  let ip := (argNat? ws "ip").getD 0 == 1
+  match ws with
+  | [] => (s, "bad-op")
+  | op :: _ =>
+    if op == "seed" then
+      match argNat? ws "s" with
+      | some sd => if sd = 0 then (s, "bad-op") else ({ s with r := some (Rng.create .mersenne (UInt32.ofNat sd)) }, "ok")
+      | none => (s, "bad-op")
+    else
+    match s.r with
+    | none => (s, "bad-op")
+    | some r =>
+      let fin (res : String) (r' : Rng) : S × String := ({ s with r := some r' }, res)
+      if op == "peek" then let (x, r') := r.next; fin s!"ok {x}" r'
+      else if op == "cshuffle" then
+        match argBytes ws "s" with
+        | some a => let (o, r') := cShuffle a r; fin ("ok " ++ hexA o) r'
+        | none => (s, "bad-op")
+      else if op == "xshuffle" then
+        match argBytes ws "s" with
+        | some a => let (o, r') := xShuffle (withSent a) a.size r; fin ("ok " ++ hexA o) r'
+        | none => (s, "bad-op")
+      else if op == "cshuffledp" then
+        match argBytes ws "s" with
+        | some a => let (o, r') := cShuffleDP a r; fin (showSeq o) r'
+        | none => (s, "bad-op")
+      else if op == "xshuffledp" then
+        match argBytes ws "s", argNat? ws "K" with
+        | some a, some K => let (o, r') := xShuffleDP (withSent a) a.size K r; fin (showSeq o) r'
+        | _, _ => (s, "bad-op")
+      else if op == "ckmers" then
+        match argBytes ws "s", argNat? ws "k" with
+        | some a, some k => if k = 0 then (s, "bad-op") else let (o, r') := shuffleKmers 0 a a.size k r; fin ("ok " ++ hexA o) r'
+        | _, _ => (s, "bad-op")
+      else if op == "xkmers" then
+        match argBytes ws "s", argNat? ws "k" with
+        | some a, some k => if k = 0 then (s, "bad-op") else let (o, r') := shuffleKmers 1 (withSent a) a.size k r; fin ("ok " ++ hexA o) r'
+        | _, _ => (s, "bad-op")
+      else if op == "cwindows" then
+        match argBytes ws "s", argNat? ws "w" with
+        | some a, some w => if w = 0 then (s, "bad-op") else let (o, r') := cShuffleWindows a w r; fin ("ok " ++ hexA o) r'
+        | _, _ => (s, "bad-op")
+      else if op == "xwindows" then
+        match argBytes ws "s", argNat? ws "w" with
+        | some a, some w => if w = 0 then (s, "bad-op") else let (o, r') := xShuffleWindows (withSent a) a.size w r; fin ("ok " ++ hexA o) r'
+        | _, _ => (s, "bad-op")
+      else if op == "creverse" then
+        match argBytes ws "s" with
+        | some a => (s, "ok " ++ hexA (reverse ip a (if ip then a else fill a.size) 0 a.size))
+        | none => (s, "bad-op")
+      else if op == "xreverse" then
+        match argBytes ws "s" with
+        | some a =>
+          let d := withSent a
+          let o := reverse ip d (if ip then d else fill d.size) 1 a.size
+          -- rev[0] = rev[L+1] = eslDSQ_SENTINEL
+          (s, "ok " ++ hexA ((o.setIfInBounds 0 255).setIfInBounds (a.size + 1) 255))
+        | none => (s, "bad-op")
+      else if op == "cmarkov0" then
+        match argBytes ws "s" with
+        | some a => let (o, r') := cMarkov0 Float a r; fin (showSeq o) r'
+        | none => (s, "bad-op")
+      else if op == "cmarkov1" then
+        match argBytes ws "s" with
+        | some a => let (o, r') := cMarkov1 Float a r; fin (showSeq o) r'
+        | none => (s, "bad-op")
+      else if op == "xmarkov0" then
+        match argBytes ws "s", argNat? ws "K" with
+        | some a, some K => let (o, r') := xMarkov0 Float (withSent a) a.size K r; fin (showSeq o) r'
+        | _, _ => (s, "bad-op")
+      else if op == "xmarkov1" then
+        match argBytes ws "s", argNat? ws "K" with
+        | some a, some K => let (o, r') := xMarkov1 Float (withSent a) a.size K r; fin (showSeq o) r'
+        | _, _ => (s, "bad-op")
+      else if op == "iid" || op == "fiid" || op == "xiid" || op == "xfiid" then
+        let isf := op == "fiid" || op == "xfiid"
+        let isx := op == "xiid" || op == "xfiid"
+        let L := (argNat? ws "L").getD 0
+        let pv := (arg? ws "p").getD "none"
+        if pv == "none" then
+          if isx then
+            let K := (argNat? ws "K").getD 4
+            let (o, r') := iidUniform K L r #[]
+            fin ("ok " ++ hexA (ofCodesDigital o)) r'
+          else (s, "bad-op")
+        else
+          let p := if isf then bitsList32 pv else bitsList64 pv
+          let (o, r') := iidLoop p L r #[]
+          match o with
+          | none => fin "fatal" r'
+          | some codes =>
+            if isx then fin ("ok " ++ hexA (ofCodesDigital codes)) r'
+            else
+              match argBytes ws "abc" with
+              | some abc => fin ("ok " ++ hexA (codes.map fun i => abc.getD i 0)) r'
+              | none => (s, "bad-op")
+      else if op == "ishuffle" || op == "ireverse" then
+        let v : Array Int := (if (arg? ws "v").getD "-" == "-" then [] else (commaFields ((arg? ws "v").getD "")).filterMap String.toInt?).toArray
+        let showV (o : Array Int) : String := if o.isEmpty then "ok -" else "ok " ++ ",".intercalate (o.toList.map toString)
+        if op == "ishuffle" then let (o, r') := cShuffle v r; fin (showV o) r'
+        else (s, showV (reverse ip v (if ip then v else Array.replicate v.size (-777)) 0 v.size))
+      else if op == "msashuffle" || op == "bootstrap" then
+        match hexRows ws "rows" with
+        | some rows =>
+          let dig := (argNat? ws "dig").getD 0 == 1
+          let alen := (rows.getD 0 #[]).size
+          let base := if dig then 1 else 0
+          let rows := if dig then rows.map withSent else rows
+          if op == "msashuffle" then
+            let (o, r') := msaShuffle base rows alen r; fin (showRows o) r'
+          else
+            -- fresh bootsample rows: 0x77 fill; the digital branch writes both sentinels, the text branch the NUL
+            let boot := rows.map (fun row => if dig then (fill row.size).setIfInBounds 0 255 |>.setIfInBounds (alen+1) 255 else fill row.size)
+            let (o, r') := bootstrap base alen rows boot r; fin (showRows o) r'
+        | none => (s, "bad-op")
+      else if op == "vshuffle" then
+        match hexRows ws "rows" with
+        | some rows =>
+          let gap : UInt8 := if (arg? ws "abc").getD "dna" == "amino" then 20 else 4
+          let alen := (rows.getD 0 #[]).size
+          let rows := rows.map withSent
+          let (o, r') := vShuffle gap ip alen rows rows r; fin (showRows o) r'
+        | none => (s, "bad-op")
+      else if op == "permute" then
+        let nseq := (commaFields ((arg? ws "rows").getD "")).length
+        let get (k : String) : Option (Array String) :=
+          match arg? ws k with
+          | none => none
+          | some v => if v == "none" then none else let f := commaFields v; if f.length == nseq then some f.toArray else none
+        let keys := ["rows", "names", "wgt", "sqlen", "acc", "desc", "ss", "sa", "pp", "gs", "gr"]
+        let arrays : Array (Array String) := (keys.filterMap get).toArray
+        let (o, r') := permuteSeqOrder arrays nseq r
+        let rowStr (i : Nat) : String := "/".intercalate (o.toList.map fun a => a.getD i "?")
+        fin ("ok " ++ (if nseq == 0 then "-" else ";".intercalate ((List.range nseq).map rowStr)) ++ " index=ok") r'
+      else if op == "cqrna" || op == "xqrna" then
+        match argBytes ws "x", argBytes ws "y" with
+        | some x, some y =>
+          if x.size != y.size then (s, "einval") else
+          if x.size == 0 then (s, "emem") else      -- ESL_ALLOC(xycol, sizeof(int) * 0): Easel refuses zero-size allocations
+          if op == "cqrna" then
+            let ((xs, ys), r') := qrna gapText x y 0 x.size r
+            fin ("ok " ++ hexA xs ++ "," ++ hexA ys) r'
+          else
+            let gap : UInt8 := if (arg? ws "abc").getD "dna" == "amino" then 20 else 4
+            let ((xs, ys), r') := qrna (fun c => c == gap) (withSent x) (withSent y) 1 x.size r
+            fin ("ok " ++ hexA xs ++ "," ++ hexA ys) r'
+        | _, _ => (s, "bad-op")
+      else (s, "bad-op")
+
+def main : IO Unit := runDriver ({} : S) step
